@@ -22,6 +22,7 @@ fn gen_cfg(rng: &mut Rng) -> Cfg {
         backlog: *rng.pick(&[1usize, 2, 8]),
         thr: *rng.pick(&[2u32, 3]),
         max: *rng.pick(&[3u32, 5]),
+        rcap: if rng.chance(0.12) { 16 } else { 0 },
     }
 }
 
@@ -67,7 +68,8 @@ fn gen_episode(rng: &mut Rng, cfg: &Cfg) -> Episode {
             74..=79 => Step::CShut,
             80..=85 => Step::SShut,
             86..=90 => Step::CDrop,
-            91..=95 => Step::SDrop,
+            91..=93 => Step::SDrop,
+            94..=95 => Step::Poll,
             96..=98 => Step::DropListener,
             _ => Step::Listen,
         };
@@ -82,6 +84,8 @@ fn gen_episode(rng: &mut Rng, cfg: &Cfg) -> Episode {
         keep: rng.chance(0.6),
         server_first: rng.coin(),
         reuse: rng.chance(0.4),
+        lazy: rng.chance(0.2),
+        hold: rng.chance(0.15),
         steps,
     }
 }
@@ -156,6 +160,8 @@ fn enum_family() -> Vec<Episode> {
                             keep: k % 2 == 0 && !matches!(sa, Some(Step::DropListener)),
                             server_first: k % 4 < 2,
                             reuse: k % 5 == 0,
+                            lazy: k % 7 == 3,
+                            hold: k % 11 == 4,
                             steps,
                         });
                     }
@@ -212,6 +218,44 @@ fn directed() -> Vec<(Cfg, Vec<Episode>)> {
         Step::SDrop, Step::Round(Deliver, Drop),
     ]);
     v.push((Cfg::default_cfg(), vec![e]));
+    // lazily polled connect: the peer's FIN (after a greeting) arrives before
+    // the application looks at the connect future again
+    let mut e = Episode::plain(vec![
+        Step::Listen, Step::Accept, Step::Connect, d(), d(), d(), d(), Step::SWrite(8), Step::SShut, d(), d(), Step::Poll, Step::CRead,
+    ]);
+    e.lazy = true;
+    v.push((Cfg::default_cfg(), vec![e]));
+    // both ends closed, the server still holds its handle: a new connection
+    // on the same 4-tuple must get through
+    let mut e = Episode::plain(vec![
+        Step::Listen, Step::Accept, Step::Connect, d(), d(), d(), d(), Step::CWrite(8), d(), d(), Step::SRead, Step::CDrop, d(), d(),
+    ]);
+    e.hold = true;
+    e.steer = Some(1);
+    v.push((Cfg::default_cfg(), vec![e]));
+    // same, the held connection was reset (client dropped with unread data)
+    let mut e = Episode::plain(vec![
+        Step::Listen, Step::Accept, Step::Connect, d(), d(), d(), d(), Step::SWrite(8), d(), d(), Step::CDrop, d(), d(),
+    ]);
+    e.hold = true;
+    e.steer = Some(1);
+    v.push((Cfg::default_cfg(), vec![e]));
+    // known (zero-window stall, no probe): small receive buffer; the server
+    // reads one buffer and drops, the client's remaining bytes fill the
+    // orphan's buffer (window 0), the client drops too: both stay for ever
+    let small = Cfg { rcap: 16, ..Cfg::default_cfg() };
+    let e = Episode::plain(vec![
+        Step::Listen, Step::Accept, Step::Connect, d(), d(), d(), d(), Step::CWrite(100), d(), d(), Step::SRead, Step::SDrop, d(), d(),
+        Step::CDrop, d(), d(),
+    ]);
+    v.push((small.clone(), vec![e]));
+    // same stall, other trigger: the server never reads and drops (RST),
+    // that RST is lost; the client orphan faces window 0 with nothing in flight
+    let e = Episode::plain(vec![
+        Step::Listen, Step::Accept, Step::Connect, d(), d(), d(), d(), Step::CWrite(100), d(), d(), d(), d(), Step::CDrop, d(), d(),
+        Step::SDrop, Step::Round(Deliver, Drop),
+    ]);
+    v.push((small, vec![e]));
     // nothing listens
     let e = Episode::plain(vec![Step::Connect, d(), d(), d()]);
     v.push((Cfg::default_cfg(), vec![e]));
@@ -283,6 +327,7 @@ fn minimise(sc: &Scenario, seed: u64, class: &str) -> Scenario {
         try_apply(&mut cur, &|s| s.cfg = Cfg::default_cfg());
         try_apply(&mut cur, &|s| s.cfg.layout = Layout::V4);
         try_apply(&mut cur, &|s| s.cfg.backlog = 8);
+        try_apply(&mut cur, &|s| s.cfg.rcap = 0);
         try_apply(&mut cur, &|s| {
             s.cfg.thr = 3;
             s.cfg.max = 5;
@@ -302,6 +347,8 @@ fn minimise(sc: &Scenario, seed: u64, class: &str) -> Scenario {
         }
         for i in 0..cur.episodes.len() {
             try_apply(&mut cur, &|s| s.episodes[i].reuse = false);
+            try_apply(&mut cur, &|s| s.episodes[i].lazy = false);
+            try_apply(&mut cur, &|s| s.episodes[i].hold = false);
             try_apply(&mut cur, &|s| s.episodes[i].steer = None);
             try_apply(&mut cur, &|s| {
                 s.episodes[i].wild = false;
@@ -431,7 +478,7 @@ fn to_out(sc: &Scenario, seed: u64, o: Outcome, space: &str, minimise_it: bool) 
         };
         let fin = run_scenario(&min, seed);
         let detail = fin.complaint.as_ref().map(|x| x.detail.clone()).unwrap_or(c.detail.clone());
-        let signature = format!("C13|{}|{}", c.class, min.canon());
+        let signature = if c.class.starts_with("diag:") { format!("C13|{}", c.class) } else { format!("C13|{}|{}", c.class, min.canon()) };
         let mut w = min.to_json();
         w["seed"] = json!(seed);
         w["complaint"] = json!(c.class);
@@ -521,8 +568,8 @@ pub fn run(ctx: &Ctx) -> ! {
         } else {
             vec![
                 Cfg::default_cfg(),
-                Cfg { layout: Layout::V6, backlog: 1, thr: 2, max: 3 },
-                Cfg { layout: Layout::V4, backlog: 2, thr: 2, max: 5 },
+                Cfg { layout: Layout::V6, backlog: 1, thr: 2, max: 3, rcap: 0 },
+                Cfg { layout: Layout::V4, backlog: 2, thr: 2, max: 5, rcap: 0 },
             ]
         };
         let n = all * cfgs.len() as u64;
